@@ -452,7 +452,12 @@ func (p *sqlParser) cmpExpr() sqlExpr {
 		case p.op(">"):
 			l = sqlBin{">", l, p.addExpr()}
 		case p.kw("like"):
-			l = sqlBin{"like", l, p.addExpr()}
+			pat := p.addExpr()
+			if p.kw("escape") {
+				l = sqlCall{fn: "like-escape", args: []sqlExpr{l, pat, p.addExpr()}}
+			} else {
+				l = sqlBin{"like", l, pat}
+			}
 		case p.kw("is"):
 			not := p.kw("not")
 			if !p.kw("null") {
@@ -808,7 +813,11 @@ func (w *Worker) sqlCmp(op string, a, b sqlVal) sqlBool {
 }
 
 // sqlLike implements SQLite's default LIKE: % and _ wildcards, ASCII case-insensitive.
-func (w *Worker) sqlLike(text, pat *StrV) *term.Term {
+func (w *Worker) sqlLike(text, pat *StrV) *term.Term { return w.sqlLikeEsc(text, pat, nil) }
+
+// sqlLikeEsc: SQLite LIKE (ASCII case-insensitive, % and _ wildcards) with an
+// optional ESCAPE character: the character after it is matched literally.
+func (w *Worker) sqlLikeEsc(text, pat *StrV, esc *term.Term) *term.Term {
 	tf := w.TF
 	n, m := len(text.B), len(pat.B)
 	lower := func(b *term.Term) *term.Term {
@@ -838,6 +847,13 @@ func (w *Worker) sqlLike(text, pat *StrV) *term.Term {
 				other = tf.And(tf.Or(isUnd, tf.Eq(lower(text.B[i]), lower(pc))), match(i+1, j+1))
 			}
 			r = tf.Ite(isPct, pctCase, other)
+			if esc != nil && j+1 < m {
+				lit := tf.False
+				if i < n {
+					lit = tf.And(tf.Eq(lower(text.B[i]), lower(pat.B[j+1])), match(i+1, j+2))
+				}
+				r = tf.Ite(tf.Eq(pc, esc), lit, r)
+			}
 		}
 		memo[[2]int{i, j}] = r
 		return r
@@ -982,6 +998,19 @@ func (w *Worker) sqlEval(e sqlExpr, env *sqlEnv) sqlVal {
 
 func (w *Worker) sqlTruth(e sqlExpr, env *sqlEnv) sqlBool {
 	tf := w.TF
+	if c, ok := e.(sqlCall); ok && c.fn == "like-escape" {
+		l, r, x := w.sqlEval(c.args[0], env), w.sqlEval(c.args[1], env), w.sqlEval(c.args[2], env)
+		if l.null || r.null || x.null {
+			return sqlBool{null: true}
+		}
+		ls, ok1 := l.v.(*StrV)
+		rs, ok2 := r.v.(*StrV)
+		xs, ok3 := x.v.(*StrV)
+		if !ok1 || !ok2 || !ok3 || len(xs.B) != 1 {
+			panic(pathAbort{"unsupported", "sql: LIKE ... ESCAPE operands"})
+		}
+		return sqlBool{t: w.sqlLikeEsc(ls, rs, xs.B[0])}
+	}
 	switch e := e.(type) {
 	case sqlBin:
 		switch e.op {
